@@ -18,6 +18,10 @@ says what the k-th host command counted from mark() returns instead:
     ["fault", name]        a host-link fault, one of FAULTS_FRAME / FAULTS_CCID
     ["fault", name, n]     a host-link fault with a length, one of FAULTS_LEN_FRAME / FAULTS_LEN_CCID: the transfer
                            named is cut to its first n octets (every n the transfer allows, see len_actions())
+    ["fault", "payload", hex]   a *well formed* envelope (frame links: information frame with right LCS/DCS after the
+                           ACK; CCID: RDR_to_PC_DataBlock with the right dwLength) that carries exactly the octets
+                           given as a hex string where the regular answer has TFI RC data (frame links) / the
+                           pseudo-APDU response D5 RC data 90 00 (ACR122U); see payload_actions()
     ["rfoff"]              (FeliCa listen through the CIU) the external field drops: CIU_DivIRq.RFOffIRq
 
 What is in the RF field is a Field object (tags for the initiator commands, a scripted remote initiator for the
@@ -59,20 +63,29 @@ FAULTS_CCID = [
 # serial links only: pyserial reports a failed os.read()/os.write() on the port as serial.SerialException, an
 # IOError *without* errno, and nfc.clf.transport.TTY lets it through (it maps only the write time-out, to EIO)
 FAULTS_SERIAL = ["noerrno@ack", "noerrno@rsp", "noerrno@write"]
+# transport exceptions whose errno is numerically equal to a chipset status code the drivers special-case (01h time-out,
+# 0Ah / 29h / 31h RF field gone / released): OS errno and chipset status are different number spaces, a transport
+# exception stays a host-link failure whatever number it carries.  nfc/clf/transport.py does not raise them today
+# (it maps everything to ETIMEDOUT / EIO / ENODEV); they stand for "an IOError with some other errno".
+FAULTS_ERRNO_COLLISION = ["e1@rsp", "e10@rsp", "e41@rsp", "e49@rsp"]
+FAULTS_ERRNO_COLLISION_CCID = ["e1", "e10", "e41", "e49"]
+# chipset status codes that are numerically equal to the errno values the transports do raise (EIO, ENODEV, ETIMEDOUT)
+STATUS_ERRNO_COLLISIONS = sorted({errno.EIO & 0xFF, errno.ENODEV & 0xFF, errno.ETIMEDOUT & 0xFF})
 
 # what the real transports (nfc/clf/transport.py) can raise, by phase of Chipset.command():
 #   USB.read   ETIMEDOUT (nothing arrived within the time-out) | ENODEV | EIO
 #   USB.write  ENODEV | EIO          (ETIMEDOUT only with a write time-out; the drivers write with timeout=0 = none)
 #   TTY.read   ETIMEDOUT (no octet within the time-out) | EIO (short frame) | no errno (SerialException)
 #   TTY.write  EIO (SerialTimeoutException) | no errno (SerialException)
-ERRNO_OF = {"eio": errno.EIO, "enodev": errno.ENODEV, "etimedout": errno.ETIMEDOUT, "noerrno": None}
+ERRNO_OF = {"eio": errno.EIO, "enodev": errno.ENODEV, "etimedout": errno.ETIMEDOUT, "noerrno": None,
+            "e1": 1, "e10": 10, "e41": 41, "e49": 49}
 
 
 def faults_for(link):
     """the named host-link faults of a link type"""
     if link == "ccid":
-        return list(FAULTS_CCID)
-    return FAULTS_FRAME + (FAULTS_SERIAL if link in ("tty", "arygon") else [])
+        return FAULTS_CCID + FAULTS_ERRNO_COLLISION_CCID
+    return FAULTS_FRAME + (FAULTS_SERIAL if link in ("tty", "arygon") else []) + FAULTS_ERRNO_COLLISION
 
 
 def fault_phase(link, name):
@@ -87,12 +100,17 @@ def fault_phase(link, name):
     if name.endswith("@write"):
         return "write"
     if link == "ccid":
-        return "rsp" if name in ("eio", "enodev") else None
+        return "rsp" if name in ("eio", "enodev") or name in FAULTS_ERRNO_COLLISION_CCID else None
     if name == "noack" or name.endswith("@ack"):
         return "ack"
-    if name.endswith("@rsp") and name.split("@")[0] in ("eio", "enodev", "noerrno"):
+    if name.endswith("@rsp") and name.split("@")[0] in ("eio", "enodev", "noerrno", "e1", "e10", "e41", "e49"):
         return "rsp"
     return None
+
+
+def errno_collision(name):
+    """True for the host-link faults whose errno is numerically a special-cased chipset status code"""
+    return name in FAULTS_ERRNO_COLLISION or name in FAULTS_ERRNO_COLLISION_CCID
 
 
 def link_error(code):
@@ -141,6 +159,68 @@ def len_actions(link, rsp):
         acts += [["fault", "ack-trunc", n] for n in range(1, len(ACK))]
     acts += [["fault", "surplus", n] for n in SURPLUS_LENGTHS]
     return acts
+
+
+def _uniq(seq):
+    out = []
+    for x in seq:
+        if x not in out:
+            out.append(x)
+    return out
+
+
+def payload_actions(link, cmd, level="full"):
+    """every ["fault", "payload", hex] for host command cmd: what a well formed envelope can carry when the content
+    is shorter than / differently ordered from a regular answer.
+    CCID (ACR122U pseudo-APDU response, regular: D5 RC data 90 00): every octet string of length 0..6 of the form
+    head || middle || status word with head in {-, D5, D5 RC, RC, D5 wrong-RC, D4 RC, arbitrary}, middle in
+    {-, 00, arbitrary, 00 arbitrary}, status word in {-, 90, 90 00, 63 00, 90 01, 00 90, arbitrary x2}, plus every
+    concatenation of the tokens {D5, RC, 90 00, 63 00, arbitrary} of at most 4 octets (level "all": at most 6);
+    level "core": only the head/middle/status-word strings of at most 3 octets or without a middle part; "mini": of at
+    most 3 octets.
+    Frame links (regular: D5 RC data): head in {-, D5, D4, 7F, D5 RC, D5 wrong-RC, RC, RC D5}, tail in {-, 00,
+    01 xx, 01 xx 00, 00 01} (a status / count octet with nothing or too little behind it); level "core" / "mini": without the
+    tails."""
+    rc, wrong = (cmd + 1) & 0xFF, (cmd + 3) & 0xFF
+    if link == "ccid":
+        heads = [b"", b"\xd5", bytes([0xD5, rc]), bytes([rc]), bytes([0xD5, wrong]), bytes([0xD4, rc]), b"\x5a"]
+        mids = [b"", b"\x00", b"\x5a", b"\x00\x5a"]
+        sws = [b"", b"\x90", b"\x90\x00", b"\x63\x00", b"\x90\x01", b"\x00\x90", b"\xa5\x5a"]
+        pl = [h + m + w for h in heads for m in mids for w in sws
+              if len(h + m + w) <= 6 and (level not in ("core", "mini") or len(h + m + w) <= 3 or not m)
+              and (level != "mini" or len(h + m + w) <= 3)]
+        toks = [b"\xd5", bytes([rc]), b"\x90\x00", b"\x63\x00", b"\x5a"]
+        seqs, bound = [b""], 0 if level in ("core", "mini") else 6 if level == "all" else 4
+        for p in seqs:                               # grows while iterated: breadth first over token sequences
+            seqs += [p + t for t in toks if len(p + t) <= bound]
+        pl += seqs
+    else:
+        heads = [b"", b"\xd5", b"\xd4", b"\x7f", bytes([0xD5, rc]), bytes([0xD5, wrong]), bytes([rc]), bytes([rc, 0xD5])]
+        tails = [b"", b"\x00", b"\x01\x5a", b"\x01\x5a\x00", b"\x00\x01"] if level not in ("core", "mini") else [b""]
+        pl = [h + t for h in heads for t in tails]
+    return [["fault", "payload", p.hex()] for p in _uniq(pl)]
+
+
+def wellformed_frame(data):
+    """normal information frame with right LCS and DCS around any data field, the empty one included (LEN 00 LCS 00
+    DCS 00; vf.ref.frames.build_frame insists on a TFI)"""
+    data = bytes(data)
+    if data:
+        return F.build_frame(data)
+    return bytes.fromhex("0000FF0000" "00" "00")
+
+
+def payload_class(link, cmd, hexstr):
+    """structural class of a payload action (for signatures, outcome classes and coverage counters)"""
+    p = bytes.fromhex(hexstr)
+    if link != "ccid":
+        return "payload:wellformed-%s" % ("empty" if not p else "tfi-only" if len(p) == 1 else "short" if len(p) == 2 else "other")
+    sw = "sw9000" if p[-2:] == b"\x90\x00" else "sw-error" if p[-2:] == b"\x63\x00" else "no-sw"
+    body = p[:-2] if sw != "no-sw" else p
+    rc = (cmd + 1) & 0xFF
+    if len(p) >= 4 and sw == "sw9000" and body[:2] == bytes([0xD5, rc]):
+        return "payload:valid-envelope"
+    return "payload:%s-%s" % ("short" if len(p) < 4 else "misordered", sw)
 
 
 def cut_region(link, name, n, rsp):
@@ -533,6 +613,10 @@ class ChipsetSim(object):
         if act is None:
             self.q = [ACK] + ([rsp] if rsp is not None else [])
             return
+        if len(act) > 2 and act[1] == "payload":
+            self.applied.append((k, list(act), cmd))
+            self.q = [ACK, wellformed_frame(bytes.fromhex(act[2]))]
+            return
         if len(act) > 2:
             frames = self._cut_frames(act[1], int(act[2]), rsp)
             if frames is None:                     # nothing to cut at that length: the command runs undisturbed
@@ -671,6 +755,10 @@ class ChipsetSim(object):
             return
         name = act[1]
         body = good[10:]
+        if len(act) > 2 and name == "payload":
+            self.applied.append((k, list(act), cmd))
+            self.q = [D(bytes.fromhex(act[2]))]
+            return
         if len(act) > 2:
             n = int(act[2])
             if name == "trunc" and 0 < n < len(good):
@@ -689,8 +777,8 @@ class ChipsetSim(object):
         E = lambda e: ("raise", e)
         if name == "etimedout":
             self.q = []
-        elif name in ("eio", "enodev"):
-            self.q = [E(errno.EIO if name == "eio" else errno.ENODEV)]
+        elif name in ("eio", "enodev") or name in FAULTS_ERRNO_COLLISION_CCID:
+            self.q = [E(ERRNO_OF[name])]
         elif name == "ccid-short":
             self.q = [good[:9]]
         elif name == "ccid-type":
